@@ -7,6 +7,7 @@ import (
 	"fmt"
 	"strings"
 	"sync"
+	"verif/clih"
 
 	"ariga.io/atlas/sql/migrate"
 	"ariga.io/atlas/sql/schema"
@@ -274,7 +275,7 @@ func pairs(tier string) []Case {
 
 func Run(r *report.Run) {
 	ctx := context.Background()
-	r.Rule = "current database A created on a real in-memory SQLite engine by our own DDL writer (two spellings: table-level constraints / inline column constraints), desired schema B given as HCL from our own writer; flow of `schema apply`: InspectRealm -> RealmDiff(DiffNormalized) -> ApplyChanges in a transaction -> re-inspect -> re-diff. quick: all ordered pairs of states with <=1 feature (x2 spellings) plus every 2-feature state against each of its 1-feature sub-states in both directions and against the bare skeleton; thorough: all ordered pairs of states with <=2 features. Features: " + fmt.Sprint(len(squ.Features)) + " elementary features over a 3-table skeleton. non-trivial = pair with a non-empty plan; distinct = (A, B, spelling)"
+	r.Rule = "current database A created on a real in-memory SQLite engine by our own DDL writer (two spellings: table-level constraints / inline column constraints), desired schema B given as HCL from our own writer; flow of `schema apply`: InspectRealm -> RealmDiff(DiffNormalized) -> ApplyChanges in a transaction -> re-inspect -> re-diff. quick: all ordered pairs of states with <=1 feature (x2 spellings) plus every 2-feature state against each of its 1-feature sub-states in both directions and against the bare skeleton; thorough: all ordered pairs of states with <=2 features. Features: " + fmt.Sprint(len(squ.Features)) + " elementary features over a 3-table skeleton. CLI slice: the real `atlas schema apply --auto-approve` on a database file (desired state as HCL file and as a live database), then `atlas schema diff` must print 'Schemas are synced', a second apply must be a no-op and the catalogue must equal B's (quick: every 1-feature state against the skeleton and its catalogue neighbour, both directions; thorough: all ordered pairs of <=1-feature states); non-trivial = pair with a non-empty plan; distinct = (A, B, spelling)"
 	r.Assumptions = []string{
 		"engine-invalid combinations (rejected by SQLite when created by our own DDL) are skipped and counted",
 		"independent oracle: the engine catalogue (pragma table_xinfo/index_list/index_xinfo/foreign_key_list + CHECK/generated texts) after A->B equals that of B created directly by our DDL; auto-index names and the origin of unique indexes (constraint vs CREATE INDEX) are normalised because atlas manages both as unique indexes",
@@ -317,12 +318,27 @@ func Run(r *report.Run) {
 	r.Set("plans_touching_two_tables", two)
 	r.Set("states_k1", len(squ.Universe(1)))
 	r.Set("states_k2", len(squ.Universe(2)))
+	r.Set("cli_cases", runCLI(ctx, r))
 }
 
 func Replay(r *report.Run, raw json.RawMessage) {
 	var v struct{ Case Case }
 	if err := json.Unmarshal(raw, &v); err != nil {
 		r.Violate("", "bad replay file: "+err.Error(), nil)
+		return
+	}
+	var cv struct {
+		Case struct {
+			C *CLICase `json:"cli"`
+		}
+	}
+	if json.Unmarshal(raw, &cv) == nil && cv.Case.C != nil {
+		defer clih.Cleanup()
+		r.Case("a", true)
+		r.Case("b", true)
+		if p, _ := evalCLI(context.Background(), *cv.Case.C); len(p) > 0 {
+			r.Violate("", strings.Join(p, " | "), map[string]any{"cli": cv.Case.C})
+		}
 		return
 	}
 	res := Eval(context.Background(), v.Case)
